@@ -273,6 +273,21 @@ def define_in_main(name, values):
     return fn
 
 
+def scale_current_spec(spec, k):
+    """The same drive with every terminal current multiplied by k (still balanced)."""
+    import copy as _copy
+
+    if spec is None:
+        return None
+    s_ = _copy.deepcopy(spec)
+    for key in ("I", "I0", "I1"):
+        if key in s_:
+            s_[key] = {n: v * k for n, v in s_[key].items()}
+    if "values" in s_:
+        s_["values"] = [{n: v * k for n, v in d.items()} for d in s_["values"]]
+    return s_
+
+
 def build_currents(spec):
     if spec is None:
         return None
